@@ -373,6 +373,26 @@ theorem dinic_history_maxflow (es : List Edge) (s t : Nat) (hnn : ∀ e, e ∈ e
     rw [← hx]
     exact (hdone hfin).1
 
+/-- **dinic_rerun_history_maxflow**: the same for the very function the driver runs on the `bounded-rerun` family
+    (`InertialFlow.rerunHistory`: first a bounded run, then `k` further runs under the stored bound / a new bound
+    i32::MAX alternating): whenever the model object answers `Ok x` afterwards, `x` is the maximum flow -/
+theorem dinic_rerun_history_maxflow (es : List Edge) (s t : Nat) (hnn : ∀ e, e ∈ es → 0 ≤ e.cap) (hst : s ≠ t)
+    (hs : s < nNodes (es.map toE)) (ht : t < nNodes (es.map toE)) (hN : nNodes (es.map toE) + 2 < INV)
+    (d : Dinic) (hd : Dinic.fromEdgeList es s t = some d) (fuel : Nat) (B : Int) (d1 : Dinic) (b1 : Int)
+    (h1 : InertialFlow.runBoundedAgain d fuel B = some (d1, b1)) (k i : Nat) (r : Dinic × Int)
+    (h2 : InertialFlow.rerunHistory fuel k i d1 b1 = some r) (x : Int) (hx : r.1.maxFlow? = .ok x) :
+    IsMaxFlowValue (cF (es.map toE) (nNodes (es.map toE))) ⟨s, hs⟩ ⟨t, ht⟩ x := by
+  obtain ⟨bs, _, hbs⟩ := InertialFlow.rerunHistory_runsBounded fuel k i d1 b1 r h2
+  refine dinic_history_maxflow es s t hnn hst hs ht hN d hd fuel (B :: bs) r.1 ?_ x hx
+  simp only [InertialFlow.runsBounded, h1]
+  exact hbs
+
+/-- on a fresh object the bounded run used elsewhere (`InertialFlow.runBounded`: C03, C04, the driver's first
+    bounded run) is the general `runBoundedAgain` -/
+theorem run_bounded_is_history_step (d : Dinic) (fuel : Nat) (bound : Int) (h0 : d.maxFlow = 0) :
+    InertialFlow.runBounded d fuel bound = InertialFlow.runBoundedAgain d fuel bound :=
+  InertialFlow.runBounded_eq_again d fuel bound h0
+
 /-- non-vacuity: D1's witness aborted at bound 2, run again under the same bound, then completed under i32::MAX -/
 example : ((Dinic.fromEdgeList d1Edges 0 4).bind (InertialFlow.runsBounded 100 [2, 2, I32MAX])).map
     (fun d => (d.finished, d.maxFlow)) = some (true, 10) := by decide +kernel
